@@ -270,8 +270,10 @@ class RawSession:
             self.sock.set_keys(cfg.user, cfg.auth_code(), cfg.akm, cfg.priv_code(), cfg.pkm)
         except BaseException as e:  # noqa
             exc = type(e).__name__
-        self.cfg = Cfg(self.cfg.ver, self.cfg.community, cfg.user, self.cfg.engine, cfg.auth, cfg.akt, cfg.akm, cfg.priv, cfg.pkt, cfg.pkm)
+        new = Cfg(self.cfg.ver, self.cfg.community, cfg.user, self.cfg.engine, cfg.auth, cfg.akt, cfg.akm, cfg.priv, cfg.pkt, cfg.pkm)
+        if not exc:
+            self.cfg = new           # a refused installation leaves the one in force (the trace spec does the same)
         e = dict(ev="SetKeys", sid=self.sid, exc=exc)
-        e.update({k: v for k, v in self.cfg.ev().items() if k in ("user", "auth", "priv", "akt", "akm", "pkt", "pkm")})
+        e.update({k: v for k, v in new.ev().items() if k in ("user", "auth", "priv", "akt", "akm", "pkt", "pkm")})
         self.rec.emit(e)
         return exc
